@@ -119,11 +119,48 @@ def run(tier, work):
                 continue
             v.fail(key, "--target=%s: %s, in program %r" % (m, what, job["files"]["t.rb"]), C.job_files_for_replay(job),
                    detail={"out": rr.get("out")})
+    # spec/MethodPaths.tla: Top#mm called through Top / Mid / Leaf instances, classes placed in namespaces, sites at the top
+    # level, in a top-level method and in methods of classes in namespaces
+    from . import methodpaths as MP
+    pprogs = MP.emit(work, stats, 2)
+    pprogs = rng.sample(pprogs, 1500 if tier == "quick" else 20000)
+    pjobs, pmeta = [], []
+    for p in pprogs:
+        lines, info = MP.render(p)
+        pjobs.append({"files": {"t.rb": "\n".join(lines) + "\n"}, "args": ["t.rb", "--llm-nav", "--target=mm"]})
+        pmeta.append((p, info))
+    wr = C.Runner(work, "worker")
+    try:
+        presults = wr.run_many(pjobs)
+    finally:
+        wr.close()
+    for (p, info), job, res in zip(pmeta, pjobs, presults):
+        if res.hung or res.crashed or res.get("exit") != 0:
+            key = "crash-or-hang:%s@%s" % (res.get("cls"), res.get("site"))
+            if not v.seen(key):
+                v.fail(key, "llm-nav fails", C.job_files_for_replay(job))
+            else:
+                v.again(key)
+            continue
+        stats["runs"] += 1
+        checked += 1
+        for key, what in MP.judge_nav(p, info, res["out"], parse_nav):
+            if v.seen(key):
+                v.again(key)
+                continue
+            rr = C.confirm_alone(work, job, runs=1)[0]
+            if not any(k == key for k, _ in MP.judge_nav(p, info, rr.get("out") or "", parse_nav)):
+                v.count("not_reproduced_blackbox")
+                continue
+            v.fail(key, "--target=mm: %s, in program %r" % (what, job["files"]["t.rb"]), C.job_files_for_replay(job),
+                   detail={"out": rr.get("out")})
     v.sample({"program": M.render(progs[0])[0], "callers": progs[0]["callers"]})
     cov = {"states": stats["states"], "transitions": stats["transitions"], "traces_validated_against_impl": stats["runs"],
-           "targets_checked": checked, "programs": len(progs),
+           "targets_checked": checked, "programs": len(progs), "method_path_programs": len(pprogs),
            "rule": "Methods.tla programs with top-level call sites in five syntactic positions and calls between methods; "
-                   "--llm-nav --target=<every method>: caller entries (enclosing method, row) compared as a multiset with the sites"}
+                   "--llm-nav --target=<every method>: caller entries (enclosing method, row) compared as a multiset with the sites; "
+                   "MethodPaths.tla programs: an inherited method called through instances of the defining / inheriting classes placed "
+                   "in namespaces, from the top level, a top-level method and methods of classes in namespaces"}
     return v.finish("model_checking", cov, assumptions=["the row of a call site is the row of the call expression"])
 
 
